@@ -153,7 +153,7 @@ class Path:
 
 
 class St:
-    __slots__ = ("env", "val", "evs", "selfcls", "fn", "depth", "exc", "frames", "module", "last_func", "selfpath")
+    __slots__ = ("env", "val", "evs", "selfcls", "fn", "depth", "exc", "frames", "module", "last_func", "selfpath", "last_orig")
 
     def __init__(self):
         self.env: dict[str, ast.expr] = {}
@@ -166,6 +166,7 @@ class St:
         self.frames: tuple = ()  # qualnames on the inline stack
         self.module = None
         self.last_func = ""
+        self.last_orig = None
         self.selfpath = "self"  # how the frame's `self` is reached from the entry function's self (display / identity)
 
     def fork(self) -> "St":
@@ -181,6 +182,7 @@ class St:
         s.module = self.module
         s.last_func = self.last_func
         s.selfpath = self.selfpath
+        s.last_orig = self.last_orig
         return s
 
 
@@ -973,6 +975,7 @@ class Enumerator:
             target = (fi, st.selfcls, None, True)
         else:
             recv_cls = None
+            st.last_orig = orig
             got = self.cfg.inline(call, ftext, recv_cls, st)
             if got:
                 target = (*got, False)
